@@ -42,6 +42,33 @@ def _take_is_capacity_under_guard(src, f):
     return True
 
 
+def _reviewed_form(f, c):
+    """The reviewed table accepts a combinator for a stated reason: the call must still have the form the reason speaks about.  -> None or what differs."""
+    from .core import walk
+
+    sites = [m for m in find(f.body, "mcall") if m["m"] == c]
+    if c == "skip":
+        bad = [m for m in sites if show(m["args"], 0).strip() != "1"]
+        return "skips %s elements, the reason covers skip(1)" % show(bad[0]["args"], 20) if bad else None
+    if c == "take_while":
+        for m in sites:
+            clo = m["args"][0] if m["args"] and m["args"][0]["k"] == "closure" else None
+            if clo is None or len(clo["params"]) != 1 or clo["params"][0]["k"] != "ident":
+                return "the predicate is not a closure over the day"
+            b = clo["body"]
+            while b["k"] == "block" and len(b["stmts"]) == 1 and b["stmts"][0]["k"] == "expr":
+                b = b["stmts"][0]["e"]
+            # the enclosing closure destructures the interval: |[lo, hi]|
+            enc = [x for x in walk(f.body) if x["k"] == "closure" and any(y is m for y in walk(x["body"])) and x["params"] and x["params"][0]["k"] in ("slice", "array")]
+            his = [e["params"][0]["elems"][-1].get("name") for e in enc if e["params"][0].get("elems")]
+            d = clo["params"][0]["name"]
+            t = show(b, 0).replace(" ", "").replace("&", "").replace("*", "")
+            if not his or t not in ("%s<=%s" % (d, his[-1]), "%s>=%s" % (his[-1], d)):
+                return "the day range must be closed at its upper bound (`d <= hi`), found `%s`" % show(b, 40)
+        return None
+    return None
+
+
 def n1(rep, src, rid="N1"):
     import re
 
@@ -61,8 +88,20 @@ def n1(rep, src, rid="N1"):
                 n += 1
                 used = sorted({m["m"] for m in find(f.body, "mcall") if m["m"] in TRUNCATING})
                 rep.instance(rid, f.qual, {"fn": f.qual, "truncating_combinators": used})
+                from .core import walk as _walk
+
+                for r_ in _walk(f.body):
+                    # an interval [lo, hi] is closed: it is enumerated by `lo..=hi`; `lo..hi` drops hi
+                    if r_.get("k") == "range" and r_.get("lo") is not None and r_.get("hi") is not None and not r_.get("incl"):
+                        rep.violation(rid, "%s@range" % f.qual, "the half-open range `%s` in the value enumeration %s drops the upper bound of a closed interval" % (show(r_, 40), f.qual), "src/%s:%d" % (f.file, r_["l"]))
                 for c in used:
                     ok = any(fl == f.file and re.search(r, f.qual) and cc == c for (fl, r, cc) in REVIEWED)
+                    if ok:
+                        why = _reviewed_form(f, c)
+                        if why:
+                            site = [m for m in find(f.body, "mcall") if m["m"] == c][0]
+                            rep.violation(rid, "%s@%s" % (f.qual, c), "`.%s(..)` in the value enumeration %s is not the reviewed form: %s (%s)" % (c, f.qual, why, show(site, 100)), "src/%s:%d" % (f.file, site["l"]))
+                        continue
                     if not ok and c == "take" and f.name == "values" and _take_is_capacity_under_guard(src, f):
                         # `.take(self.capacity)` in Values::values cannot drop anything when the only enumeration site (into_values of the same impl) runs under
                         # `values_len() < max_value_len()` and max_value_len() is the capacity (that values_len does not under-report is decided by C18/P6)
